@@ -181,7 +181,7 @@ ForAllFold(n, path, b, RT, RF, us, i, sol, S, qw) ==
            extra == {n.uv} \cup (IF ForAllKeepsConditionVars THEN cv ELSE {})
            R == Ev3(n.c, Append(path, 1), [b EXCEPT ![n.uv] = us[i]], FALSE, RT \cup extra, RF \cup extra, S, q, W)
            trues == SelectSeq(R.outs, LAMBDA o : ~o.f)
-           vs == SelectSeq(VarSeq(n.c), LAMBDA v : v \in cv)      \* in the order of their first occurrence in the condition
+           vs == KeySeq(q, cv)      \* in the order of their ids, i.e. of declaration (HashedIterable.difference goes through a set of ids)
            complete == FlattenSeqs([j \in 1..Len(trues) |-> BindAll(vs, 1, trues[j].b, q, W)])
            current == Dedupe([j \in 1..Len(complete) |-> RestrictB(complete[j], cv)], 1, <<>>)
            sol2 == IF i = 1 THEN current ELSE SelectSeq(sol, LAMBDA d : \E j \in 1..Len(current) : current[j] = d)
